@@ -74,20 +74,26 @@ fn kx_liar_put_sources() {
     kani::cover!(true);
 }
 
-// @ob props=C17,C02 tier=quick kind=Kbounded bound="liar loops unwound 3 times" expect=memsafe nounwind=1 timeout=1800 fns=Buf::copy_to_bytes,Take::copy_to_bytes
+// @ob props=C17,C02 tier=thorough kind=Kbounded bound="liar loops unwound 3 times; n <= 4" expect=memsafe nounwind=1 timeout=3000 fns=Buf::copy_to_bytes
 #[kani::proof]
 #[kani::unwind(4)]
 fn kx_liar_copy_to_bytes() {
     let n: usize = kani::any();
-    kani::assume(n <= 8);
-    if kani::any() {
-        let mut b = liar();
-        let r = b.copy_to_bytes(n);
-        assert!(r.len() <= 64);
-    } else {
-        let mut t = take::new(liar(), kani::any());
-        let _ = t.copy_to_bytes(n);
-    }
+    kani::assume(n <= 4);
+    let mut b = liar();
+    let r = b.copy_to_bytes(n);
+    assert!(r.len() <= 64);
+    kani::cover!(true);
+}
+
+// @ob props=C17,C02 tier=thorough kind=Kbounded bound="liar loops unwound 3 times; n <= 4" expect=memsafe nounwind=1 timeout=3000 fns=Take::copy_to_bytes
+#[kani::proof]
+#[kani::unwind(4)]
+fn kx_liar_take_copy_to_bytes() {
+    let n: usize = kani::any();
+    kani::assume(n <= 4);
+    let mut t = take::new(liar(), kani::any());
+    let _ = t.copy_to_bytes(n);
     kani::cover!(true);
 }
 
